@@ -129,8 +129,8 @@ type cellS struct {
 func (c cellS) String() string { return kindName[c.k] + ":" + c.id }
 
 type tierS struct {
-	group, name string
-	in, out     []string
+	group, name, action string
+	in, out             []string
 }
 
 type amsg struct {
@@ -181,7 +181,7 @@ func ruleRefs(rules ...[]*proto.Rule) []cellS {
 
 func tierRefs(group string, tiers []*proto.TierInfo, refs *[]cellS, ts *[]tierS) {
 	for _, t := range tiers {
-		x := tierS{group: group, name: t.Name}
+		x := tierS{group: group, name: t.Name, action: t.DefaultAction}
 		for _, p := range t.IngressPolicies {
 			x.in = append(x.in, polID(p))
 			*refs = append(*refs, cellS{KPol, polID(p)})
@@ -428,6 +428,45 @@ func joinClass(a, b string) string {
 	return strings.Join(setKeys(m), "+")
 }
 
+// exactRefs mirrors Spec.exact_refs: an IP set exists exactly when an active policy/profile uses it, a profile is
+// active exactly when an endpoint lists it.
+func exactRefs(d *dpState) []string {
+	usedSets, usedProfs := map[string]bool{}, map[string]bool{}
+	for c, v := range d.kv {
+		for _, r := range v.refs {
+			if (c.k == KPol || c.k == KProf) && r.k == KIPSet {
+				usedSets[r.id] = true
+			}
+			if c.k == KEp && r.k == KProf {
+				usedProfs[r.id] = true
+			}
+		}
+	}
+	var bad []string
+	for id := range d.sets {
+		if !usedSets[id] {
+			bad = append(bad, "IP set "+id+" exists but no active policy/profile uses it")
+		}
+	}
+	for id := range usedSets {
+		if _, ok := d.sets[id]; !ok {
+			bad = append(bad, "IP set "+id+" is used but does not exist")
+		}
+	}
+	for c := range d.kv {
+		if c.k == KProf && !usedProfs[c.id] {
+			bad = append(bad, "profile "+c.id+" is active but no endpoint lists it")
+		}
+	}
+	for id := range usedProfs {
+		if _, ok := d.kv[cellS{KProf, id}]; !ok {
+			bad = append(bad, "profile "+id+" is listed by an endpoint but not active")
+		}
+	}
+	sort.Strings(bad)
+	return bad
+}
+
 func sameRefs(a, b []cellS) bool {
 	if len(a) != len(b) {
 		return false
@@ -457,7 +496,7 @@ func tierNames(ts []tierS) string {
 	return sb.String()
 }
 
-func stripTiers(ts []tierS, drop map[string]bool) string {
+func stripTiers(ts []tierS, drop map[string]bool, withAction bool) string {
 	var sb strings.Builder
 	for _, t := range ts {
 		var in, out []string
@@ -474,7 +513,11 @@ func stripTiers(ts []tierS, drop map[string]bool) string {
 		if len(in)+len(out) == 0 {
 			continue
 		}
-		fmt.Fprintf(&sb, "%s/%s in=%v out=%v;", t.group, t.name, in, out)
+		fmt.Fprintf(&sb, "%s/%s in=%v out=%v", t.group, t.name, in, out)
+		if withAction {
+			fmt.Fprintf(&sb, " action=%q", t.action)
+		}
+		sb.WriteString(";")
 	}
 	return sb.String()
 }
@@ -529,15 +572,18 @@ func diff(h, f *dpState, flapped map[string]bool) (lines []string, class string)
 			lines = append(lines, fmt.Sprintf("%s: present in history=%v fresh=%v  %s%s", c, hok, fok, hv.text, fv.text))
 			continue
 		}
-		if c.k == KEp && len(flapped) > 0 && hv.base == fv.base && stripTiers(hv.tiers, flapped) == stripTiers(fv.tiers, flapped) {
-			found["stale-policy-order"] = true
-			lines = append(lines, fmt.Sprintf("%s: policy lists differ only in the placement of policies whose match started and stopped between flushes %v: history=%s fresh=%s",
-				c, setKeys(flapped), stripTiers(hv.tiers, nil), stripTiers(fv.tiers, nil)))
+		if c.k == KEp && hv.base == fv.base && tierNames(hv.tiers) == tierNames(fv.tiers) &&
+			stripTiers(hv.tiers, nil, false) == stripTiers(fv.tiers, nil, false) {
+			// same tiers, same policy lists: only TierInfo attributes differ
+			found["tier-default-action"] = true
+			lines = append(lines, fmt.Sprintf("%s: same tiers and policy lists, tier default_action differs: history=%s fresh=%s",
+				c, stripTiers(hv.tiers, nil, true), stripTiers(fv.tiers, nil, true)))
 			continue
 		}
-		if c.k == KEp && hv.base == fv.base && stripTiers(hv.tiers, nil) == stripTiers(fv.tiers, nil) && tierNames(hv.tiers) == tierNames(fv.tiers) {
-			found["tier-default-action"] = true
-			lines = append(lines, fmt.Sprintf("%s: same tiers and policy lists, tier attributes (default_action) differ: history=%s | fresh=%s", c, hv.text, fv.text))
+		if c.k == KEp && len(flapped) > 0 && hv.base == fv.base && stripTiers(hv.tiers, flapped, true) == stripTiers(fv.tiers, flapped, true) {
+			found["stale-policy-order"] = true
+			lines = append(lines, fmt.Sprintf("%s: policy lists differ only in the placement of policies whose match started and stopped between flushes %v: history=%s fresh=%s",
+				c, setKeys(flapped), stripTiers(hv.tiers, nil, true), stripTiers(fv.tiers, nil, true)))
 			continue
 		}
 		if c.k == KRoute && hv.base == fv.base {
@@ -879,7 +925,47 @@ func runCase(seed uint64, idx int, u []*ukey, st *stats) map[string]any {
 		n = 30 + r.intn(40)
 	}
 	evs := genEvents(r, u, n, scripted)
+	return evalHistory(seed, idx, u, st, evs, routeSource, scripted, r.next())
+}
 
+// shrinkCase: greedy delta-debugging of the history of case idx - drop chunks of events (then single events) as long
+// as the classification of the difference stays the same (and is not "none"); prints the minimised case.
+func shrinkCase(seed uint64, idx int, u []*ukey) map[string]any {
+	r := &rng{s: seed*0x100000001b3 + uint64(idx)*0x9e3779b97f4a7c15 + 1}
+	routeSource := "CalicoIPAM"
+	if r.chance(25) {
+		routeSource = "WorkloadIPs"
+	}
+	scripted := idx%6 == 5
+	n := 30 + r.intn(171)
+	if r.chance(30) {
+		n = 30 + r.intn(40)
+	}
+	evs := genEvents(r, u, n, scripted)
+	shufSeed := r.next()
+	st := &stats{}
+	line := evalHistory(seed, idx, u, st, evs, routeSource, scripted, shufSeed)
+	class := line["diff_class"].(string)
+	if class == "none" {
+		return line
+	}
+	for chunk := len(evs) / 2; chunk >= 1; chunk /= 2 {
+		for i := 0; i+chunk <= len(evs); {
+			cand := append(append([]event(nil), evs[:i]...), evs[i+chunk:]...)
+			l2 := evalHistory(seed, idx, u, st, cand, routeSource, scripted, shufSeed)
+			if l2["diff_class"].(string) == class {
+				evs, line = cand, l2
+			} else {
+				i += chunk
+			}
+		}
+	}
+	line["sample"].(map[string]any)["shrunk"] = true
+	return line
+}
+
+func evalHistory(seed uint64, idx int, u []*ukey, st *stats, evs []event, routeSource string, scripted bool, shufSeed uint64) map[string]any {
+	r := &rng{s: shufSeed}
 	// ---- history run on the real graph
 	cur := map[string]uint64{}
 	built := map[string]any{}
@@ -982,6 +1068,10 @@ func runCase(seed uint64, idx int, u []*ukey, st *stats) map[string]any {
 	if len(hd.bad)+len(fd.bad)+len(fd2.bad) > 0 && class == "none" {
 		class = "stream-not-closed"
 	}
+	leaks := append(exactRefs(hd), exactRefs(fd)...)
+	if len(leaks) > 0 {
+		class = "leak" // never a known class
+	}
 	if panicked {
 		class = "panic"
 	}
@@ -1022,6 +1112,9 @@ func runCase(seed uint64, idx int, u []*ukey, st *stats) map[string]any {
 	}
 	if panicked {
 		sample["panic"] = hpanic + p1 + p2
+	}
+	if len(leaks) > 0 {
+		sample["leaks"] = leaks
 	}
 	return map[string]any{"coq": coq, "nt": nt, "key": fmt.Sprintf("%s|%s", routeSource, strings.Join(ops, ";")),
 		"sample": sample, "tags": tl, "diff_class": class}
@@ -1068,6 +1161,7 @@ func main() {
 	n := flag.Int("n", 20, "cases")
 	seed := flag.Uint64("seed", 1, "seed")
 	only := flag.Int("only", -1, "run only the case with this index (replay)")
+	shrink := flag.Bool("shrink", false, "with -only: minimise the history while the difference class stays the same")
 	flag.Parse()
 	logrus.SetOutput(io.Discard)
 	logrus.SetLevel(logrus.PanicLevel)
@@ -1076,6 +1170,12 @@ func main() {
 	st := &stats{}
 	for i := 0; i < *n; i++ {
 		if *only >= 0 && i != *only {
+			continue
+		}
+		if *shrink {
+			if err := enc.Encode(shrinkCase(*seed, i, u)); err != nil {
+				panic(err)
+			}
 			continue
 		}
 		if err := enc.Encode(runCase(*seed, i, u, st)); err != nil {
